@@ -254,6 +254,34 @@ def run(ctx):
         ctx.cover('C13:corpus')
     for abbr, cfg in FIXED:
         cases.append((abbr, cfg, {'explicit': fu.has_explicit_field(abbr)}))
+    # exhaustive operator skeletons with four decorations (bare, empty attribute, text with fields,
+    # self-closed) under five option sets: positions, 1..k numbering, tabstop count, field groups
+    max_units = 2 if ctx.tier == 'quick' else 3
+    sk_cfgs = [{}, {'options': {'output.newline': '\r\n', 'output.baseIndent': '  ', 'output.formatLeafNode': True}},
+               {'syntax': 'xml', 'options': {'output.format': False}}, {'syntax': 'pug'},
+               {'syntax': 'jsx', 'options': {'output.newline': '~~', 'output.indent': '  ', 'output.inlineBreak': 1}}]
+    n_sk = 0
+    for nu in range(1, max_units + 1):
+        for k, st in enumerate(g.enum_stmts(nu, ['div', 'span', 'p', 'em'], ops=('>', '+', '^'), repeats=(None, 2))):
+            for unit, _ in st:
+                if isinstance(unit, g.El):
+                    if k % 4 == 1:
+                        unit.attrs = [('title', None, ''), ('data-v', 'v', '"')]
+                    elif k % 4 == 2:
+                        unit.text = 'x ${2:two\nl} y ${1}'
+                    elif k % 4 == 3:
+                        unit.self_close = True
+            abbr = g.render(st)
+            cfg = sk_cfgs[k % len(sk_cfgs)]
+            meta = {'explicit': fu.has_explicit_field(abbr)}
+            if cfg.get('syntax', 'html') in fu.HTML_SYNTAXES:
+                tree = g.unroll(g.denote_stmt(st))
+                meta['groups'] = expected_groups(tree, [])
+                if not meta['explicit']:
+                    meta['countable'] = True
+            cases.append((abbr, cfg, meta))
+            n_sk += 1
+    ctx.cov['exhaustive_skeletons'] = {'max_units': max_units, 'statements': n_sk}
     n = 2500 if ctx.tier == 'quick' else 60000
     for _ in range(n):
         cases.append(make_case(rng))
